@@ -58,3 +58,15 @@ def to_int(val: Any) -> int:
             token=None,
         )
     return int(val)
+
+
+def to_str(val: Any) -> str:
+    """Return `str(val)`, or raise a `LiquidValueError` if _val_ can't be a string.
+
+    An integer with more digits than the interpreter's integer string conversion
+    limit, for example.
+    """
+    try:
+        return str(val)
+    except ValueError as err:
+        raise LiquidValueError(str(err), token=None) from err
